@@ -214,7 +214,10 @@ class TransferFrameDataField:
         self._size = self.header_len() + len(tfdz)
 
     def header_len(self) -> int:
-        return 1 if self.fhp_or_lvop is None else 3
+        # pack only emits the pointer field for the fixed-length construction rules
+        if self.fhp_or_lvop is None or not self.__cnstr_rules_for_fp():
+            return 1
+        return 3
 
     def len(self):
         return self._size
